@@ -20,6 +20,7 @@ import (
 	"net"
 	"os"
 	"os/exec"
+	"runtime"
 	"strings"
 	"sync"
 	"sync/atomic"
@@ -37,6 +38,7 @@ import (
 	"go.sia.tech/coreutils/threadgroup"
 	"go.sia.tech/coreutils/wallet"
 	"go.uber.org/zap"
+	"go.uber.org/zap/zaptest/observer"
 	"verifharness/vh"
 )
 
@@ -116,6 +118,7 @@ func Run(r *vh.Run) {
 		{"shutdown", r.Pick(14, 252), scenShutdown, false},
 		{"srv", r.Pick(3, 60), scenSrv, false},
 		{"wallet", r.Pick(2, 30), scenWallet, false},
+		{"walletnow", r.Pick(2, 12), scenWalletNow, false},
 	}
 	var slow []string
 	var isolated, inproc []func()
@@ -1543,6 +1546,81 @@ func scenUnknownID(name string, rng *vh.RNG, r *vh.Run) {
 	c.Key = fmt.Sprintf("%s/%d", name, len(events))
 	inventory(c)
 	for _, tc := range inflightCasesQ(name, events, srv.s.VerifID(), srv.s.VerifTG(), maxPeer, maxSub, quietFrom, []string{"scen:unknownid"}) {
+		r.Add(tc)
+	}
+}
+
+// reorgCM records whether the wallet's OnReorg subscription has been cancelled.
+type reorgCM struct {
+	*chain.Manager
+	subscribed, cancelled atomic.Int64
+}
+
+func (m *reorgCM) OnReorg(fn func(types.ChainIndex)) func() {
+	m.subscribed.Add(1)
+	cancel := m.Manager.OnReorg(fn)
+	return func() { cancel(); m.cancelled.Add(1) }
+}
+
+// scenWalletNow: a wallet is constructed and closed AT ONCE, many times.  Close must wait for the
+// rebroadcast goroutine that the constructor starts, also when that goroutine has not been
+// scheduled yet.  The verdict needs no sleeping: at the moment Close returns the wallet's reorg
+// subscription must have been cancelled (the goroutine's last act), and the goroutine must never
+// find the thread group already stopped (it logs "failed to add context" when it does).  Half of
+// the iterations run with GOMAXPROCS(1): there the goroutine cannot run before Close unless
+// Close waits for it.
+func scenWalletNow(name string, rng *vh.RNG, r *vh.Run) {
+	iters := 100 + rng.Intn(100)
+	c := &vh.Case{Name: name, Tags: []string{"scen:walletnow"}, Info: map[string]any{"iterations": iters}}
+	defer func() { r.Add(c) }()
+	threadgroup.VerifStart()
+	n, genesis := testutil.V2Network()
+	store, ts, err := chain.NewDBStore(chain.NewMemDB(), n, genesis, nil)
+	if err != nil {
+		orc(c, "setup", "%v", err)
+		return
+	}
+	cm := &reorgCM{Manager: chain.NewManager(store, ts)}
+	core, logs := observer.New(zap.DebugLevel)
+	log := zap.New(core)
+	notCancelled, first := 0, -1
+	prev := runtime.GOMAXPROCS(0)
+	for i := 0; i < iters; i++ {
+		if i == 0 {
+			runtime.GOMAXPROCS(1)
+		} else if i == iters/2 {
+			runtime.GOMAXPROCS(prev)
+		}
+		before := cm.cancelled.Load()
+		w, err := wallet.NewSingleAddressWallet(types.GeneratePrivateKey(), cm, testutil.NewEphemeralWalletStore(), &testutil.MockSyncer{}, wallet.WithLogger(log))
+		if err != nil {
+			runtime.GOMAXPROCS(prev)
+			orc(c, "setup", "%v", err)
+			return
+		}
+		w.Close()
+		if cm.cancelled.Load() == before {
+			notCancelled++
+			if first < 0 {
+				first = i
+			}
+		}
+	}
+	runtime.GOMAXPROCS(prev)
+	events := threadgroup.VerifStop()
+	inventory(c) // lets goroutines that were never waited for run to their end
+	late := 0
+	for _, e := range logs.All() {
+		if strings.Contains(e.Message, "failed to add context") {
+			late++
+		}
+	}
+	if notCancelled > 0 || late > 0 {
+		orc(c, "wallet-work-after-close", "in %d of %d construct-and-close iterations SingleAddressWallet.Close returned while the wallet's reorg subscription was still registered (first: iteration %d), and %d time(s) the rebroadcast goroutine started only after Close and found the thread group stopped (\"failed to add context\"): Close does not wait for the goroutine the constructor starts", notCancelled, iters, first, late)
+	}
+	c.Nontrivial = true
+	c.Key = fmt.Sprintf("%s/%d", name, iters)
+	for _, tc := range tgCases(name, events, nil, []string{"scen:walletnow"})[:min(4, len(tgCases(name, events, nil, nil)))] {
 		r.Add(tc)
 	}
 }
